@@ -698,6 +698,32 @@ impl Snap for RC {
         self.0 == o.0
     }
 }
+/// call-recording Clone next to every other derivable trait, so that Clone can be derived together with any of them
+#[derive(Debug, PartialEq, Eq, PartialOrd, Ord, Hash, Default)]
+pub struct RE(pub u8);
+impl Clone for RE {
+    fn clone(&self) -> Self {
+        trace_push(OP_CLONE, self.0, 0xE);
+        RE(self.0)
+    }
+    fn clone_from(&mut self, source: &Self) {
+        trace_push(OP_CLONE_FROM, self.0, source.0);
+        self.0 = source.0;
+    }
+}
+impl Gen for RE {
+    fn gen<S: Src>(s: &mut S) -> Self {
+        RE(s.u8())
+    }
+}
+impl Snap for RE {
+    fn snap(&self) -> Self {
+        RE(self.0)
+    }
+    fn same(&self, o: &Self) -> bool {
+        self.0 == o.0
+    }
+}
 /// a saved copy of the call trace
 #[derive(Clone, Copy)]
 pub struct TraceCopy {
